@@ -10,7 +10,7 @@
                                      gang mask is m exists / exists and is once-satisfied)
              then for gang 1..G   recKeyMask recInitialized   (the record the gang points to) *)
 From Coq Require Import List ZArith Bool.
-From Verif Require Import Lib.Wire C04.Model C04.Spec.
+From Verif Require Import Lib.Wire C04.Model C04.Spec C04.Sections.
 Import ListNotations.
 Open Scope Z_scope.
 
@@ -150,19 +150,51 @@ Definition nontrivial_case (inp : list Z) : bool :=
 Definition finding_sig (inp obs : list Z) : Z := 0.
 
 
-(* ---- stream "race": the harness runs the informer events and the scheduling-cycle calls of the
-   history on two goroutines (plus a sampler) and reports one integer:
-   0 = every sampled gang summary had pending/waiting/bound pairwise disjoint and pending within
-   children, and at quiescence every child was in exactly one set. The model's answer is the
-   theorem c04_partition_sections / c04_partition: always 0. ---- *)
-Definition race_run_case (inp : list Z) : list Z := [0].
+(* ---- stream "race": the harness runs the informer events of the history on three goroutines
+   (PodGroup events | pod events of even pods | pod events of odd pods) and the scheduling-cycle calls
+   on a fourth, several times, and reports
+     code  (0 = every sampled gang summary had pending/waiting/bound pairwise disjoint and pending within
+            children, and at quiescence every child was in exactly one set; the model's answer is the
+            theorem c04_partition_sections / c04_partition: always 0)
+   followed, when code = 0, by two blocks of G x 8 integers: what every gang is at quiescence of two
+   "monotone" repetitions (the history without delete events and without PodGroup updates that no PodGroup
+   add precedes: [mono_ops]). By c04_concurrent_informers_confluent these declarations do not depend on the
+   interleaving, so the model's answer is the declaration tracker run over [mono_ops] in history order. ---- *)
+Definition encode_decl (o : option decl) : list Z :=
+  match o with
+  | None => [0; 0; 0; 0; 0; 0; 0; 0]
+  | Some d => [1; bz (d_init d); bz (d_strict d); d_policy d; d_min d; gmask_of (d_group d); bz (d_crd d);
+               mask_of (d_children d)]
+  end.
+Definition race_figs (h : hdr) (ops : list op) : list Z :=
+  let ds := fold_left (decl_step h) (mono_ops ops) [] in
+  flat_map (fun g => encode_decl (assocZ g ds)) (range1 (Z.to_nat (h_ngangs h))).
+
+Definition race_run_case (inp : list Z) : list Z :=
+  let '(h, ops) := decode inp in 0 :: race_figs h ops ++ race_figs h ops.
+(* clause 1 / 2 / 3: the partition codes of the harness; 8: a gang at quiescence is not the declared one *)
 Definition race_prop_case (inp obs : list Z) : Z :=
-  match obs with [x] => x | _ => 9 end.
+  let '(h, ops) := decode inp in
+  match obs with
+  | [] => 9
+  | code :: rest =>
+      if negb (code =? 0) then code
+      else if list_eqb rest (race_figs h ops ++ race_figs h ops) then 0 else 8
+  end.
 Definition is_event (o : op) : bool :=
   match o with PodAdd _ _ | PodUpdate _ _ _ | PodDelete _ | PGAdd _ _ | PGUpdate _ _ | PGDelete _ => true | _ => false end.
 Definition is_cycle (o : op) : bool :=
   match o with Permit _ | Unreserve _ | PostBind _ | AfterPostFilter _ => true | _ => false end.
-(* at least two informer events and two scheduling-cycle calls to interleave *)
+Definition is_pg_event (o : op) : bool :=
+  match o with PGAdd _ _ | PGUpdate _ _ | PGDelete _ => true | _ => false end.
+(* at least two informer events and two scheduling-cycle calls to interleave, and informer events on at
+   least two of the informer goroutines *)
 Definition race_nontrivial_case (inp : list Z) : bool :=
   let '(h, ops) := decode inp in
-  Nat.leb 2 (length (filter is_event ops)) && Nat.leb 2 (length (filter is_cycle ops)).
+  let ev := filter is_event ops in
+  let pods par := filter (fun o => match o with
+                                   | PodAdd p _ | PodUpdate p _ _ | PodDelete p => Bool.eqb (Z.even p) par
+                                   | _ => false end) ev in
+  Nat.leb 2 (length ev) && Nat.leb 2 (length (filter is_cycle ops))
+  && Nat.leb 2 ((if is_nil (filter is_pg_event ev) then 0 else 1)
+                + (if is_nil (pods true) then 0 else 1) + (if is_nil (pods false) then 0 else 1))%nat.
